@@ -523,6 +523,17 @@ fn gen_cases(cfg: &Cfg, rep: &mut Report) -> (Vec<CaseDesc>, Vec<CaseDesc>) {
             big.push(CaseDesc { opts: o, spec: spec.clone(), class: "table-at-autocompletion-cap", stack_kib: None });
         }
     }
+    // inlines nested far deeper than any recursion over the tree can follow, inside a heading whose text is
+    // collected for its anchor (header_ids) and inside a link / image whose text is collected for alt text
+    {
+        let n = if dev { 100_000usize } else { 400_000 };
+        let mut o = Opts::all_extensions();
+        o.header_ids = Some("h-".to_string());
+        for (pre, open, close) in [("# ", "*a ", " b*"), ("# ", "[a ", " b](u)"), ("![", "*a ", " b*](u)\n\n# x")] {
+            let spec = spec_of(&[(pre.as_bytes(), 1), (open.as_bytes(), n), (b"x", 1), (close.as_bytes(), n), (b"\n", 1)]);
+            big.push(CaseDesc { opts: o.clone(), spec, class: "deep-inlines-in-heading-with-ids", stack_kib: None });
+        }
+    }
     rep.add("cases-small", small.len() as u64);
     rep.add("cases-big", big.len() as u64);
     (small, big)
